@@ -62,11 +62,26 @@ def schedule(allow_sequential=True):
     if allow_sequential:
         kinds.append(st.fixed_dictionaries({'kind': st.just('sequential')}))
     base = st.one_of(*kinds)
-    return st.tuples(base, st.lists(STALL, max_size=3)).map(lambda t: dict(t[0], stalls=t[1]) if t[1] else t[0])
+    victims = ['main', 'seat-thread-0', 'seat-thread-1', 'seat-thread-2', 'seat-thread-3', 'client-N', 'client-E', 'client-S', 'client-W']
+    starve = st.one_of(st.none(), st.none(), st.none(), st.none(), st.sampled_from(victims))      # one task delayed without limit
+    return st.tuples(base, st.lists(STALL, max_size=3), starve).map(
+        lambda t: dict(t[0], **({'stalls': t[1]} if t[1] else {}), **({'starve': t[2]} if t[2] else {})))
 
 
 @st.composite
 def scenario(draw, min_boards=1, max_boards=3, play_prob=3):
     boards = draw(st.lists(board(play_prob), min_size=min_boards, max_size=max_boards))
-    return {'boards': boards, 'teams': [draw(TEAM), draw(TEAM)], 'arrival': draw(permutations([0, 1, 2, 3])),
+    teams = [draw(TEAM), draw(TEAM)]
+    arrival = draw(permutations([0, 1, 2, 3]))
+    intruders = []
+    for _ in range(draw(st.sampled_from([0, 0, 0, 0, 1, 2]))):
+        kind = draw(st.sampled_from(['wrong version', 'seat taken', 'team mismatch']))
+        early = arrival[draw(st.integers(0, 2))]                   # a seat whose conforming client is not the last to arrive
+        if kind == 'wrong version':
+            intruders.append({'kind': kind, 'seat': draw(st.integers(0, 3)), 'team': teams[0], 'version': draw(st.integers(0, 99).filter(lambda v: v != 18)), 'after': None})
+        elif kind == 'seat taken':
+            intruders.append({'kind': kind, 'seat': early, 'team': teams[early % 2], 'version': 18, 'after': early})
+        else:
+            intruders.append({'kind': kind, 'seat': (early + 2) % 4, 'team': teams[early % 2] + '?', 'version': 18, 'after': early})
+    return {'boards': boards, 'teams': teams, 'arrival': arrival, 'intruders': intruders,
             'fmt': draw(fmt()), 'split': draw(st.one_of(st.none(), st.none(), st.lists(st.integers(1, 7), min_size=1, max_size=5)))}
